@@ -52,7 +52,7 @@ TIE = ("T (check_response chain + retry tuple: AST → Lean, proved equal) + D (
        "accepted by the Lean LTS with equal vault state after every label)")
 THEOREMS = [("Kopf.Props.C12", "Kopf.C12." + n) for n in [
     "attempts_bound", "gap_ge_backoff", "gap_ge_retry_after", "fatal_4xx_immediate",
-    "transient_retried_then_escalates", "success_stops",
+    "transient_retried_then_escalates", "success_stops", "transient_http_iff", "retry_after_http_date_witness",
     "delays_follow_config", "empty_config_never_throttles", "success_resets", "swallowed",
     "other_objects_unaffected", "recovers_after_errors_stop",
     "single_reauth", "stale_invalidation_is_noop", "all_proceed_fresh", "invalid_not_reused",
@@ -81,7 +81,7 @@ TRUSTED = [
 ]
 ASSUMPTIONS = [
     "Retry-After is honoured for HTTP 429 only (as documented in docs/configuration.rst); a Retry-After on 5xx is ignored by the code and not judged",
-    "Retry-After values are numeric seconds (RFC delay-seconds); an HTTP-date makes int(float(..)) raise ValueError out of api.request (reported, outside the model)",
+    "Retry-After values are numeric seconds (RFC delay-seconds); the HTTP-date form is finding F1 (ValueError escapes api.request, no retry): modelled (Resp.hdrBad), witnessed (retry_after_http_date_witness), replayed from corpus/C12/F1.json on every run",
     "settings.queueing.error_delays is an Iterable as annotated; a scalar makes iter() raise TypeError out of throttled (modelled, not judged)",
     "credentials have no expiration; every populate brings newly constructed info objects (equal values allowed)",
     "the invalid-credential history is per vault key and holds 3 items (the bound is in the theorem)",
@@ -441,6 +441,9 @@ def gen_attempt(rng: random.Random, backoff_hint: int | None) -> dict:
         base = (backoff_hint or 0) // 1024
         val = rng.choice(RA_POOL + [max(0, base - 1), base, base + 1, base + 1])
         how = rng.choice(["hdr", "hdr", "det", "both", "none", "hdr-empty", "hdr-frac"])
+        if rng.random() < 0.02:
+            how = "hdr-date"
+            a["hdr"] = HTTP_DATE
         if how in ("hdr", "both"):
             a["hdr"] = str(val)
         if how == "hdr-empty":
@@ -507,6 +510,17 @@ async def _one_request(env: dict, case: dict) -> dict:
             "status": getattr(exc, "status", None), "facts": sess.facts}
 
 
+def hdr_numeric(hdr: Any) -> bool:
+    try:
+        float(hdr)
+        return True
+    except (TypeError, ValueError):
+        return False
+
+
+HTTP_DATE = "Wed, 21 Oct 2026 07:28:00 GMT"
+
+
 def request_to_lean(case: dict, obs: dict) -> list:
     script = []
     for a, fact in zip(case["script"], obs["facts"] + [None] * len(case["script"])):
@@ -514,9 +528,10 @@ def request_to_lean(case: dict, obs: dict) -> list:
             f = fact if fact is not None else _exc_facts(a["exc"])
         else:
             hdr = a.get("hdr")
-            h = None if hdr in (None, "") else tk(float(hdr))
+            bad = hdr not in (None, "") and not hdr_numeric(hdr)
+            h = None if hdr in (None, "") or bad else tk(float(hdr))
             d = None if a.get("det") is None else a["det"] * 1024
-            f = ["http", a["status"], h, a.get("payload", "empty"), d]
+            f = ["http", a["status"], h, a.get("payload", "empty"), d, bad]
         script.append({"lat": a["lat"], "f": f})
     return ["C12.request", {"backoffs": seq_to_lean(case["backoffs"]), "enforce": case["enforce"]}, script, obs["t0"]]
 
@@ -573,7 +588,12 @@ def oracle_request(case: dict, obs: dict) -> list[tuple[str, dict]]:
             expected_final = ("status", a["status"]) if a["kind"] == "http" else ("exc", a["exc"])
             break
     if expected_attempts is not None:
-        if n != expected_attempts:
+        last = script[n - 1] if 0 < n <= len(script) else None
+        if n < expected_attempts and last is not None and last["kind"] == "http" and last["status"] == 429 \
+                and last.get("hdr") not in (None, "") and not hdr_numeric(last.get("hdr")) and obs["exc"] == "ValueError":
+            out.append(("a 429 whose Retry-After is an HTTP-date was not retried: ValueError escaped api.request",
+                        {"site": "api.request", "shape": "429 with non-numeric Retry-After -> ValueError, no retry"}))
+        elif n != expected_attempts:
             kind = "fatal-4xx-retried" if isinstance(expected_final, tuple) and expected_final[0] == "status" and \
                 400 <= expected_final[1] < 500 and expected_final[1] not in (403, 429) and n > expected_attempts \
                 else ("transient-not-retried" if n < expected_attempts else "too-many-attempts")
@@ -598,7 +618,7 @@ def oracle_request(case: dict, obs: dict) -> list[tuple[str, dict]]:
         ra = None
         if a["kind"] == "http" and a["status"] == 429:
             hdr = a.get("hdr")
-            if hdr not in (None, ""):
+            if hdr not in (None, "") and hdr_numeric(hdr):
                 ra = int(float(hdr)) * 1024          # delay-seconds are integral (RFC 7231 §7.1.3)
             elif a.get("det") and a.get("payload") == "status":
                 ra = a["det"] * 1024
@@ -618,7 +638,7 @@ def key_request(case: dict, obs: dict) -> tuple[str, bool]:
         if a["kind"] == "http":
             t = str(a["status"])
             if a["status"] == 429:
-                t += ":" + ("h" if a.get("hdr") else "") + ("d" if a.get("det") else "") + a.get("payload", "")[:1]
+                t += ":" + ("h" if a.get("hdr") else "") + ("D" if a.get("hdr") == HTTP_DATE else "") + ("d" if a.get("det") else "") + a.get("payload", "")[:1]
         else:
             t = a["exc"]
         tags.append(t)
@@ -967,14 +987,24 @@ def gen_vault(rng: random.Random) -> dict:
             per_key.append({"what": what, "life": life(), "delay": rng.choice([0, 16, 64, 512, 1024])})
         logins.append(per_key)
     reqs = []
+    storm = rng.random() < 0.4       # many requests in flight around one revocation instant
+    storm_at = rng.choice([256, 1000, 1024])
     for _ in range(nreq):
         calls = []
         for _c in range(rng.choice([1, 1, 2, 3])):
             calls.append({"gap": rng.choice([0, 0, 1, 16, 500, 1024]),
                           "answers": [[rng.choice([0, 16, 16, 64, 300]), rng.choice([200, 200, 200, 200, 500, 404, 503])]
                                       for _a in range(rng.choice([0, 1, 2, 4]))]})
-        reqs.append({"start": rng.choice([0, 0, 1, 16, 64, 990, 1000, 1024, 1030]), "calls": calls})
-    return {"part": "vault", "keys": keys, "init": init, "init_life": [life() for _ in range(nkeys)],
+        start = rng.choice([0, 0, 1, 16, 64, 990, 1000, 1024, 1030])
+        if storm:
+            start = max(0, storm_at - rng.choice([1, 4, 8, 15, 16, 17, 40]))
+            calls[0]["gap"] = 0
+            calls[0]["answers"] = [[rng.choice([16, 16, 64, 300]), 200]] + calls[0]["answers"]
+        reqs.append({"start": start, "calls": calls})
+    init_life = [life() for _ in range(nkeys)]
+    if storm and init:
+        init_life = [storm_at for _ in range(nkeys)]
+    return {"part": "vault", "keys": keys, "init": init, "init_life": init_life,
             "logins": logins, "reqs": reqs, "backoffs": rng.choice([[], [64], [0, 16], [512]]),
             "close_lat": rng.choice([0, 0, 16])}
 
@@ -1127,6 +1157,8 @@ async def _one_vault(env: dict, case: dict) -> dict:
             calls[0] += 1
             spec = case["logins"][j][ki] if j < len(case["logins"]) else {"what": "fresh", "life": None, "delay": 16}
             world.log(ev="login", key=keyname[ki], run=j, t=tk(loop.time()))
+            if j >= 40:       # a re-authentication storm: park the activity; the requesters show up as stuck
+                await asyncio.Event().wait()
             if spec["delay"]:
                 await asyncio.sleep(sec(spec["delay"]))
             hist = revoked_hist[ki]
@@ -1174,7 +1206,7 @@ async def _one_vault(env: dict, case: dict) -> dict:
                 results[i].append("error")
 
     tasks = [asyncio.create_task(requester(i, spec), name=f"r{i}") for i, spec in enumerate(case["reqs"])]
-    done, pending = await asyncio.wait(tasks, timeout=600.0)
+    done, pending = await asyncio.wait(tasks, timeout=120.0)
     stuck = sorted(int(t.get_name()[1:]) for t in pending)
     crashed = [repr(t.exception()) for t in done if t.exception() is not None]
     auth_dead = auth_task.done()
@@ -1529,7 +1561,8 @@ def _absorb(ctx: Ctx, res: dict, oracle_only: bool = False) -> None:
     if oracle_only:
         return
     if res["lean_error"]:
-        ctx.tie_fail("Lean driver failed: " + res["lean_error"], {})
+        # a toolchain failure is not a verdict about the property (exit 2, never a VIOLATION line)
+        raise RuntimeError("Lean driver failed: " + res["lean_error"])
     ctx.tie_comparisons += res["comparisons"]
     ctx.traces += res["traces"]
     for t in res["tie"]:
@@ -1562,7 +1595,7 @@ def run(ctx: Ctx) -> None:
         res = evaluate([d["case"] for _, d in corpus])
         _absorb(ctx, res)
         ctx.count("corpus", "cases", len(corpus))
-    total = ctx.budget(2000, 100_000)
+    total = ctx.budget(3000, 100_000)
     workers = min(16, os.cpu_count() or 1, max(1, total // 250))
     shards = workers * (4 if ctx.tier == "thorough" else 1)
     for res in _pool_map(_plan(ctx, total, shards), workers):
@@ -1590,8 +1623,7 @@ def _status_table(ctx: Ctx) -> None:
     try:
         outs = ctx.driver.ask(reqs)
     except leanio.LeanError as e:
-        ctx.tie_fail(f"Lean driver failed: {e}", {"log": e.log[-1500:]})
-        return
+        raise RuntimeError(f"Lean driver failed: {e}: {e.log[-1500:]}")
     names = {"notFound": "not-found", "tooMany": "too-many", "apiError": "api-error"}
     for s, g, o in zip(range(100, 1001), got, outs):
         m = o[1] if o and o[0] == "ok" else o
